@@ -3,12 +3,14 @@ CONSTANTS
   Programs <- FamilyNegLoop
   QuerySeqs <- QS2
   Permute = TRUE
-  CheckOnTableHit = TRUE
-  RepairFalseResult = FALSE
+  CheckOnTableHit = FALSE
+  RepairFalseResult = TRUE
 VIEW view
 INVARIANT NoDanglingMessages
 INVARIANT NoError
 INVARIANT NegCycleOnlyWhenCyclic
 INVARIANT AnsweredOnlyWhenDefined
+INVARIANT StackEmpty
 INVARIANT TableSound
+INVARIANT ResultCorrect
 CHECK_DEADLOCK FALSE
